@@ -71,6 +71,7 @@ fn main() {
             "C12" => nqverif::c12::replay(case),
             "C13" => nqverif::c13::replay(case),
             "C14" => nqverif::c14::replay(case),
+            "C15" => nqverif::c15::replay(case),
             "C16" => nqverif::c16::replay(case),
             "C18" => nqverif::c18::replay(case),
             "C19" => nqverif::c19::replay(case),
@@ -96,6 +97,7 @@ fn main() {
         "C12" => nqverif::c12::run(&args),
         "C13" => nqverif::c13::run(&args),
         "C14" => nqverif::c14::run(&args),
+        "C15" => nqverif::c15::run(&args),
         "C16" => nqverif::c16::run(&args),
         "C18" => nqverif::c18::run(&args),
         "C19" => nqverif::c19::run(&args),
